@@ -806,7 +806,8 @@ def free_automaton(generating_set):
         (and their inverses)
 
     """
-    generators = list(generating_set) + [
+    generating_set = list(generating_set)
+    generators = generating_set + [
         words.invert_gen(g) for g in generating_set
     ]
     graph = {
